@@ -10,10 +10,85 @@ import (
 	"runtime"
 	"strconv"
 	"sync"
+	"time"
 )
+
+type verifSchedEntry struct {
+	Pos   string `json:"pos"`
+	Phase int    `json:"phase"`
+	Gor   int    `json:"gor"`
+	Auto  bool   `json:"auto"`
+}
 
 type verifReplayFile struct {
 	Nondets map[string]string `json:"nondets"`
+	Entries []verifSchedEntry `json:"schedule_entries"`
+}
+
+// Schedule replay controller: goroutines pass verifPoint(pos) in the order of the solver's schedule.
+// A point whose position does not occur in the rest of the schedule is passed at once; an entry that has
+// no native point (second phase of cond.Wait / of an unbuffered send, model-only goroutines) is skipped
+// after a settle delay; a goroutine that waits too long marks the replay as diverged and everything runs
+// freely from then on.
+var verifCtl struct {
+	mu       sync.Mutex
+	entries  []verifSchedEntry
+	cur      int
+	remain   map[string]int
+	active   bool
+	diverged bool
+	arrived  time.Time
+}
+
+const (
+	verifSettle  = 15 * time.Millisecond
+	verifPatience = 1500 * time.Millisecond
+)
+
+func verifCtlAdvance() {
+	c := &verifCtl
+	c.cur++
+	c.arrived = time.Now()
+}
+
+func verifPoint(pos string) {
+	c := &verifCtl
+	verifLoad()
+	start := time.Now()
+	for {
+		c.mu.Lock()
+		if !c.active || c.cur >= len(c.entries) || c.remain[pos] == 0 {
+			c.mu.Unlock()
+			return
+		}
+		e := c.entries[c.cur]
+		if e.Auto {
+			if time.Since(c.arrived) > verifSettle {
+				c.remain[e.Pos]--
+				verifCtlAdvance()
+			}
+			c.mu.Unlock()
+			time.Sleep(200 * time.Microsecond)
+			continue
+		}
+		if e.Pos == pos {
+			c.remain[pos]--
+			verifCtlAdvance()
+			c.mu.Unlock()
+			return
+		}
+		if time.Since(start) > verifPatience || time.Since(c.arrived) > verifPatience {
+			if !c.diverged {
+				fmt.Printf("VERIF-DIVERGED at schedule entry %d (%s), waiting goroutine at %s\n", c.cur, e.Pos, pos)
+			}
+			c.diverged = true
+			c.active = false
+			c.mu.Unlock()
+			return
+		}
+		c.mu.Unlock()
+		time.Sleep(200 * time.Microsecond)
+	}
 }
 
 var verifRT struct {
@@ -42,6 +117,15 @@ func verifLoad() {
 		}
 		for k, v := range f.Nondets {
 			verifRT.vals[k] = v
+		}
+		if len(f.Entries) > 0 {
+			verifCtl.entries = f.Entries
+			verifCtl.remain = map[string]int{}
+			for _, e := range f.Entries {
+				verifCtl.remain[e.Pos]++
+			}
+			verifCtl.active = true
+			verifCtl.arrived = time.Now()
 		}
 	})
 }
